@@ -243,7 +243,7 @@ static std::string responses(WirePeer& P, Torrent* T) {
   return msgs.empty() ? "-" : msgs;
 }
 
-struct Seg { uint32_t cap; std::vector<size_t> lens; };
+struct Seg { uint32_t cap; std::vector<long> lens; };   // lens entry -1 = `w`: the write side becomes ready
 
 static std::string run_one(Session& S, RoleCtx& rc, std::map<std::string, std::string>& kv, const Seg& seg, std::string& d2) {
   Torrent* T = rc.T;
@@ -330,7 +330,20 @@ static std::string run_one(Session& S, RoleCtx& rc, std::map<std::string, std::s
   if (pcb->m_up->get_state() != torrent::ProtocolBase::MSG) return "ERR:writer-not-held";
   if (seg.cap) Session::set_recv_chunk(port, seg.cap);
   size_t pos = 0;
-  for (size_t n : seg.lens) {
+  for (long n : seg.lens) {
+    if (n < 0) {
+      // write-ready: release the writer, let everything pending go out (the peer reads it), hold it again
+      Session::set_send_budget(port, -1);
+      Session::set_recv_chunk(port, 0);
+      epump();
+      torrent::PeerConnectionBase* q = S.find_connection(T, port);
+      if (q == nullptr) break;
+      Session::set_send_budget(port, 0);
+      q->receive_keepalive();
+      S.step();
+      if (seg.cap) Session::set_recv_chunk(port, seg.cap);
+      continue;
+    }
     tx(stream.substr(pos, n));
     pos += n;
     for (int i = 0; i < 1000 && !P.tx_pending.empty() && !P.eof; i++) { S.step(); P.flush(); }
@@ -377,7 +390,7 @@ static std::string run_exact(Session& S, std::map<std::string, std::string>& kv)
     while (a < tok.size()) {
       size_t b = tok.find(',', a);
       std::string t = tok.substr(a, b == std::string::npos ? std::string::npos : b - a);
-      if (!t.empty()) sg.lens.push_back(std::stoul(t));
+      if (!t.empty()) sg.lens.push_back(t == "w" ? -1L : (long)std::stoul(t));
       if (b == std::string::npos) break;
       a = b + 1;
     }
